@@ -3,7 +3,7 @@
 import json, os, sys, glob
 
 V = "/verif"
-HOOK_COMMITS = ["0ceead4", "1461f0f", "3824c48", "e9167ce", "c41f29e"]
+HOOK_COMMITS = ["0ceead4", "1461f0f", "3824c48", "e9167ce", "c41f29e", "ba2410a"]
 
 # id -> (level, technique, engine, text, note, design_ref)
 CHECKS = {
